@@ -160,6 +160,22 @@ impl Prop for C15 {
     fn max_bytes(&self) -> usize {
         2000
     }
+    fn enum_count(&self, _tier: Tier) -> u64 {
+        14
+    }
+    fn enum_case(&self, _env: &Env, idx: u64, st: &mut Stats) -> Result<(), Fail> {
+        // wide trees (100 / 300 members, arguments, imports ...): sizes 100 and 300 only, the
+        // predicate families are quadratic in the number of symbols
+        let (m, what) = super::c02::wide_case((idx / 2) * 5 + if idx % 2 == 0 { 0 } else { 4 });
+        let d = crate::doccase::DocCase::plain(m)?;
+        st.eval();
+        st.class("wide-tree");
+        let case = || json!({"kind": "enum", "idx": idx, "what": what});
+        let (_, v) = imp::run_one(&d.laid.text).map_err(|e| Fail::new(e, case()))?;
+        let tree = v.ast.ok_or_else(|| Fail::new("no tree for a well-formed document", case()))?;
+        st.nontrivial(d.laid.text.as_bytes());
+        check_tree(&tree).map(|_| ()).map_err(|e| Fail::new(e, case()))
+    }
     fn random(&self, _env: &Env, bytes: &[u8], st: &mut Stats) -> Result<(), Fail> {
         let mut s = Src::new(bytes);
         let cfg = GenCfg::default();
